@@ -6,7 +6,8 @@
      (b) an entry at an index <= commit of a node is never removed or replaced there,
      (c) forall size evs, committed_agree (run size evs): no two nodes hold different entries at an index
          both have committed.
-   (c) is false of the faithful model (`C28c_refuted*`). *)
+   (c) is false of the faithful model (`C28c_refuted*`); `classes h` = (double vote, stale vote counted, ack from
+   diverged log, old-term commit, ack below voted term) are the decidable defect classes of a history. *)
 From Coq Require Import NArith List.
 From Agdb Require Import Raft RaftWitness RaftProofs.
 Import ListNotations.
@@ -17,20 +18,24 @@ Theorem C28c_refuted : ~ (forall size evs, committed_agree (run size evs)).
 Proof. exact C28c_refuted. Qed.
 Print Assumptions C28c_refuted.
 
-(* (c) fails even when every term has one leader, nobody votes twice, no stale vote is counted and the leader
-   only commits entries of its own term: validate_log_append has no previous-entry check *)
-Theorem C28c_refuted_single_leader :
+(* (c) fails in histories with one leader per term in which exactly one defect class occurs — three independent
+   causes.  1: validate_log_append has no previous-entry check *)
+Theorem C28c_refuted_ack_diverged :
   exists size evs, let c := run size evs in
-    election_safety (c_hist c) /\ double_vote_b (c_hist c) = false /\ stale_vote_b (c_hist c) = false /\
-    old_term_commit_b (c_hist c) = false /\ ~ committed_agree c.
-Proof. exact C28c_refuted_single_leader. Qed.
-Print Assumptions C28c_refuted_single_leader.
+    election_safety (c_hist c) /\ classes (c_hist c) = (false, false, true, false, false) /\ ~ committed_agree c.
+Proof. exact C28c_refuted_ack_diverged. Qed.
+Print Assumptions C28c_refuted_ack_diverged.
 
-(* ... and independently when every acknowledgement comes from a matching log: the leader commits an
-   entry of an older term by counting replicas (corpus/C28/old_term_commit.txt) *)
+(* 2: the leader commits an entry of an older term by counting replicas *)
 Theorem C28c_refuted_old_term_commit :
   exists size evs, let c := run size evs in
-    election_safety (c_hist c) /\ double_vote_b (c_hist c) = false /\ stale_vote_b (c_hist c) = false /\
-    ack_diverged_b (c_hist c) = false /\ ~ committed_agree c.
+    election_safety (c_hist c) /\ classes (c_hist c) = (false, false, false, true, false) /\ ~ committed_agree c.
 Proof. exact C28c_refuted_old_term_commit. Qed.
 Print Assumptions C28c_refuted_old_term_commit.
+
+(* 3: a voter keeps its old term after voting and still acknowledges the old leader's Append *)
+Theorem C28c_refuted_ack_below_vote :
+  exists size evs, let c := run size evs in
+    election_safety (c_hist c) /\ classes (c_hist c) = (false, false, false, false, true) /\ ~ committed_agree c.
+Proof. exact C28c_refuted_ack_below_vote. Qed.
+Print Assumptions C28c_refuted_ack_below_vote.
